@@ -48,7 +48,8 @@ theorem rejectAll_lt (ds : List ℝ) : ∀ d ∈ ds, rejectAll ds < d := by
     | cons y ys => simp [listMin] at h; split at h <;> simp at h
   | some m =>
     have := listMin_le ds m h d hd
-    simp only; linarith
+    have hb : (Scalar.below m : ℝ) = m - 1 := rfl
+    simp only [smin_real, hb, min_self]; linarith
 
 /-- every real threshold predicts like the reject-all value or like one observed distance -/
 theorem C16_exists_cand (ds : List ℝ) (t : ℝ) : ∃ c ∈ cands ds, preds ds c = preds ds t := by
